@@ -176,7 +176,7 @@ pub fn run_proc(plan: &ProcPlan, verif: &str) -> ProcRecord {
         cmd.pre_exec(|| {
             let cpu = libc::rlimit { rlim_cur: 60, rlim_max: 65 };
             libc::setrlimit(libc::RLIMIT_CPU, &cpu);
-            let mem = libc::rlimit { rlim_cur: 4 << 30, rlim_max: 4 << 30 };
+            let mem = libc::rlimit { rlim_cur: 1 << 30, rlim_max: 1 << 30 };
             libc::setrlimit(libc::RLIMIT_AS, &mem);
             let core = libc::rlimit { rlim_cur: 0, rlim_max: 0 };
             libc::setrlimit(libc::RLIMIT_CORE, &core);
